@@ -583,6 +583,12 @@ class Parser:
             self._path_token = None
         return node
 
+    def pattern_string(self, node: ast.expr) -> ast.expr:
+        """A string used as a match pattern or mapping-pattern key: a path literal is a call, not a literal."""
+        if isinstance(node, ast.Call):
+            self.raise_syntax_error_known_location("patterns may only match literals and attribute lookups", node)
+        return node
+
     def handle_fstring(
         self, a: TokenInfo, b: list[ast.FormattedValue | ast.Constant], **locs: int
     ) -> ast.JoinedStr:
